@@ -20,7 +20,9 @@ PLAN = {
     "C12": {"mc": ["MC_Names"], "gen": [("Gen_Names", 300, 6000, 32, False)]},
     "C13": {"mc": ["MC_Seek"], "impl": ["MC_ImplSnap"], "impl_thorough": ["MC_ImplSnap_thorough", "MC_ImplSeek"], "gen": [("Gen_Seek", 120, 4000, 32, True), ("Gen_Snap", 80, 4000, 30, True), ("BFS_Snap", 0, 60000, 8, False)]},
     "C14": {"mc": ["MC_Timing"], "gen": [("Gen_Timing", 260, 6000, 30, True)]},
-    "C15": {"mc": ["MC_Prune"], "gen": [("Gen_Prune", 200, 5000, 34, True), ("Gen_Names", 60, 1500, 32, True)], "converge": True},
+    "C15": {"mc": ["MC_Prune"], "gen": [("Gen_Prune", 200, 5000, 34, True), ("Gen_Names", 60, 1500, 32, True)], "converge": True,
+            # design-level liveness (no VIEW, no constraint): fair job runs empty every table once everything is deleted
+            "mc_thorough_extra": ["MC_Converge"]},
     # C09: every mutating step of the generated histories is re-run with the k-th
     # database interaction failing (k = 1, 2, ... incl. BEGIN and COMMIT), then with
     # the request cancelled at the k-th interaction
@@ -121,7 +123,7 @@ def _run(ctx, replay):
     states = transitions = 0
     mc_runs = []
     if not replay:
-        for mod in plan["mc"]:
+        for mod in plan["mc"] + (plan.get("mc_thorough_extra", []) if tier == "thorough" else []):
             r = vlib.tlc_mc(ctx, mod + ("_thorough" if tier == "thorough" and os.path.exists(os.path.join(vlib.SPEC, mod + "_thorough.tla")) else ""),
                             timeout=3000 if tier == "thorough" else 600)
             mc_runs.append(r)
